@@ -153,7 +153,7 @@ func scenarioStart(c *hlib.RunCtx) *hlib.Violation {
 			return
 		}
 		isTelemetryChild := len(child.Args) == 2 && child.Args[1] == "** telemetry **"
-		cst := &starter{cfg: pst.cfg, marker: child.Env[telemetryChildVar], tainted: pst.tainted || child.Env[telemetryChildVar] != ""}
+		cst := &starter{cfg: pst.cfg, marker: child.Env[telemetryChildVar], tainted: pst.tainted || isTelemetryChild || child.Env[telemetryChildVar] != ""}
 		info[child] = cst
 		if isTelemetryChild {
 			child.Name = "sidecar"
@@ -222,6 +222,12 @@ func scenarioStart(c *hlib.RunCtx) *hlib.Violation {
 			p.Env[telemetryChildVar] = marker
 			if t.Bool(1, 2) {
 				p.Env[telemetryUploadVar] = "1"
+			}
+		} else if t.Bool(1, 3) {
+			// the variables present but empty in the application's environment
+			p.Env[telemetryChildVar] = ""
+			if t.Bool(1, 2) {
+				p.Env[telemetryUploadVar] = ""
 			}
 		}
 		st := &starter{cfg: Config{ReportCrashes: t.Bool(1, 2), Upload: t.Bool(2, 3), TelemetryDir: tele, UploadURL: "http://telemetry.sim/upload"}, marker: marker, tainted: marker != ""}
